@@ -1,11 +1,12 @@
 PROP = {
     "id": "C19",
     "theorem_modules": ["Verif.Properties.C19"],
-    "min_theorems": 3,
+    "min_theorems": 4,
     "required_theorems": [
         "Verif.Properties.C19.length_getKey",
         "Verif.Properties.C19.slice_bounds",
         "Verif.Properties.C19.hex_roundtrip",
+        "Verif.Properties.C19.index_aligned_partial",
     ],
     "streams": [
         {"name": "str", "driver": "drv_str",
@@ -13,9 +14,25 @@ PROP = {
     ],
     "exhaustive": False,
     "technique": "Lean 4 proof over a byte-level port of interpreter/value_string.go, parametric in the segmentation, against a cluster-list spec + correspondence stream",
-    "level_text": "TODO",
-    "level_note": "TODO",
-    "assumptions": [],
+    "level_text": "Lean theorems for an arbitrary segmentation into non-empty clusters about a byte-level port of "
+                  "interpreter/value_string.go: length / indexing (bounds exact), slice (fails exactly for from<0, to>length, "
+                  "from>to; otherwise the bytes cut out are the clusters from..to-1), soundness of the aligned search (a "
+                  "reported match starts at a cluster start and covers whole clusters equal to the needle), hex round trip. "
+                  "Tied to /repo by stream `str`: strings biased to combining marks, ZWJ emoji, skin tones, regional "
+                  "indicators, Hangul syllables and jamo, CR LF, Indic conjuncts, prepend characters and empty strings; "
+                  "needles from cluster-aligned and misaligned fragments; every operation (length, index, slice, iteration, "
+                  "utf8, index/contains/count, split, replaceAll, concat, join, literal normalisation, encodeHex/decodeHex, "
+                  "ASCII toLower) through *interpreter.StringValue directly and through scripts in both engines; Go is "
+                  "compared with the model and, independently, with an executable cluster-list spec (first aligned "
+                  "occurrence, greedy count/split).",
+    "level_note": "Partial: minimality/completeness of indexOf and the count/split/replaceAll = spec equalities are "
+                  "correspondence-checked against the executable spec, not proved. NFC (x/text) and UAX #29 segmentation "
+                  "(rivo/uniseg) are parameters supplied by the harness: that the cluster sequence is the Unicode-correct "
+                  "one is not decided here. toLower is compared for ASCII input only.",
+    "assumptions": ["the segmentation of a substring cut at cluster boundaries is the corresponding sub-list of clusters "
+                    "(slice re-segments v.Str[start:end]); exercised by every split/count/replace line",
+                    "re-normalisation after concat/join is taken from the harness (x/text); replaceAll is generated with "
+                    "replacement texts whose junctions are NFC-stable"],
     "trusted_base": ["hand-written port Verif.Model.Str validated by stream str",
                      "Go harness cmd/vharness/stream_str.go", "driver Drv/Str.lean"],
 }
